@@ -392,6 +392,26 @@ func init() {
 			r.Check(okAll && kinds["interval == 0"] && kinds["rate == 1"], k, "clock restarts iff decay was inactive (stored interval == 0 or stored rate == 1)", "the restart is entered exactly through the two `inactive` tests on the stored asset", "the decay clock restart in UpdateAllianceAsset is guarded by another condition than the hook's notion of inactive decay (interval == 0 or rate == 1 of the stored asset): an asset whose clock never ran can keep a stale clock when decay is switched on, and all intervals since then are applied in one step", r.P(restart))
 		}})
 
+	register(&Rule{ID: "C14.activation", Props: []string{"C14", "C13"}, Floor: 1,
+		Doc: "an asset becomes active only after every validator's pending rewards were settled",
+		Run: func(e *Engine, r *RuleRun) {
+			// Rewards are split when they are withdrawn from x/distribution, not when they are earned.  A weight change is
+			// made non-retroactive by UpdateAllianceAsset, which settles every validator first (C14.settleorder).  The
+			// end of the warm-up is a weight change from 0 to w; the only per-asset activation step is
+			// InitializeAllianceAssets.
+			fn := r.Need("keeper.Keeper.InitializeAllianceAssets")
+			if fn == nil {
+				return
+			}
+			settles := false
+			for _, f := range e.Reach(fn) {
+				if FuncKey(f) == "keeper.Keeper.ClaimValidatorRewards" {
+					settles = true
+				}
+			}
+			r.Check(settles, FuncKey(fn), "activation settles every validator first", "the activation step reaches ClaimValidatorRewards", "the end of an asset's warm-up is not preceded by a settlement of the validators: rewards that the module's stake earned BEFORE the asset's reward start time and that are still pending in x/distribution are split, at the first withdrawal after the start time, among the started assets including the new one (its stakers are paid for a period in which the asset earned nothing, the others are short by that amount)", e.Pos(fn.Pos()))
+		}})
+
 	register(&Rule{ID: "C14.range", Props: []string{"C14", "C16"}, Floor: 2,
 		Doc: "UpdateAllianceAsset persists only a weight inside the new range",
 		Run: func(e *Engine, r *RuleRun) {
